@@ -27,6 +27,7 @@ type FuncResult struct {
 	WordMode    bool
 	GenTime     float64
 	Crashed     string
+	UsedLemmas  []string
 }
 
 func (p *Program) srcCache(file string) ([]byte, bool) {
@@ -157,6 +158,7 @@ func verifyFunc(prog *Program, fi *FuncInfo, ct *Contract, opts *Options) (fr *F
 		}
 		sort.Strings(fr.Inlined)
 		fr.WordMode = e.wordMode
+		fr.UsedLemmas = e.usedLemmas
 		fr.GenTime = time.Since(t0).Seconds()
 		for _, o := range fr.Obls {
 			o.exec = e
@@ -249,6 +251,11 @@ func verifyFunc(prog *Program, fi *FuncInfo, ct *Contract, opts *Options) (fr *F
 	if len(e.specErrors) > 0 {
 		return
 	}
+	if ct != nil {
+		for _, ln := range ct.Uses {
+			e.useLemma(st, ln)
+		}
+	}
 	e.entry = st.clone()
 	out := e.execBlock(st, fd.Body.List)
 	if !out.dead {
@@ -316,9 +323,11 @@ func (o *Obligation) query() string { return o.queryWith(nil) }
 func (o *Obligation) ancestors() map[string]bool {
 	if o.anc == nil {
 		o.anc = o.exec.pcAncestors(o.PC.S)
-		for _, l := range o.Splits {
-			for k := range o.exec.pcAncestors(l.S) {
-				o.anc[k] = true
+		for _, c := range o.Splits {
+			for _, l := range c {
+				for k := range o.exec.pcAncestors(l.S) {
+					o.anc[k] = true
+				}
 			}
 		}
 	}
@@ -360,13 +369,7 @@ func (o *Obligation) usesTag(premiseTag string) bool {
 }
 
 // cases: one case per joined path.
-func (o *Obligation) cases() [][]Term {
-	var out [][]Term
-	for _, b := range o.Splits {
-		out = append(out, []Term{b})
-	}
-	return out
-}
+func (o *Obligation) cases() [][]Term { return o.Splits }
 
 func (o *Obligation) queryWith(extra []Term) string { return o.querySel(extra, false) }
 
@@ -465,7 +468,8 @@ func discharge(obls []*Obligation, opts *Options) {
 				q := o.query()
 				if opts.DumpDir != "" {
 					os.MkdirAll(opts.DumpDir, 0o755)
-					os.WriteFile(filepath.Join(opts.DumpDir, sanitize(o.Name)+".smt2"), []byte(q+"(check-sat)\n"), 0o644)
+					os.WriteFile(filepath.Join(opts.DumpDir, sanitize(o.Name)+".smt2"), []byte(z3Pre+q+"(check-sat)\n"), 0o644)
+					os.WriteFile(filepath.Join(opts.DumpDir, sanitize(o.Name)+".sel.smt2"), []byte(z3Pre+o.querySel(nil, true)+"(check-sat)\n"), 0o644)
 				}
 				budget := opts.Budget
 				if o.Smoke {
@@ -510,6 +514,9 @@ func dischargeOne(o *Obligation, budget float64) SolverResult {
 			spent += r.Time
 			o.NSplit++
 			last = r
+			if os.Getenv("RVC_DEBUG") != "" {
+				fmt.Fprintf(os.Stderr, "  split %s sel=%v case=%v -> %s %.2fs\n", o.Name, sel, c, r.Status, r.Time)
+			}
 			if r.Status != "unsat" {
 				return r, r.Status == "error"
 			}
@@ -545,4 +552,62 @@ func dischargeOne(o *Obligation, budget float64) SolverResult {
 	}
 	r.Time = spent
 	return r
+}
+
+
+// useLemma adds the universally quantified closure of a lemma procedure's contract
+// (forall parameters and heaps: requires ==> ensures) as a premise. The lemma procedure is
+// itself verified (its obligations belong to every property that uses it).
+func (e *Exec) useLemma(st *State, name string) {
+	key := e.pkgShort + "." + name
+	ct := e.prog.Contracts[key]
+	fi := e.prog.Funcs[key]
+	if ct == nil || fi == nil {
+		key = "roaring." + name
+		ct, fi = e.prog.Contracts[key], e.prog.Funcs[key]
+	}
+	if ct == nil || fi == nil || !ct.IsLemma {
+		e.specErrors = append(e.specErrors, "use "+name+": no such lemma procedure")
+		return
+	}
+	e.usedLemmas = append(e.usedLemmas, key)
+	defer e.catchSpec("lemma "+name, fi.Decl.Pos())
+	probe := []string{}
+	pst := &State{vars: nil, heap: nil, pc: True, probe: &probe}
+	env := &SpecEnv{vars: map[string]TV{}, oldVars: map[string]TV{}, cur: pst, old: pst, pkg: pkgShort(fi.Pkg.PkgPath), tpkg: fi.Pkg.Types}
+	var binders []string
+	var typeFacts []Term
+	sig := fi.Obj.Type().(*types.Signature)
+	_, pn, _ := calleeNames(fi)
+	for i, n := range pn {
+		pt := sig.Params().At(i).Type()
+		ps := e.sortOf(pt)
+		v := Term{"l!" + n, ps}
+		env.vars[n] = TV{v, pt}
+		binders = append(binders, fmt.Sprintf("(l!%s %s)", n, ps))
+		typeFacts = append(typeFacts, e.rangeFact(v, pt))
+	}
+	var pre, post []Term
+	for _, r := range ct.Requires {
+		pre = append(pre, e.specBool(pst, r, env))
+	}
+	for _, en := range ct.Ensures {
+		post = append(post, e.specBool(pst, en, env))
+	}
+	var pats []string
+	for _, t := range ct.Trigger {
+		pats = append(pats, ":pattern ("+e.specTerm(pst, t, env).S+")")
+	}
+	sort.Strings(probe)
+	for _, k := range probe {
+		binders = append(binders, fmt.Sprintf("(hp!%s %s)", k, e.heapMetas[k].sort))
+	}
+	body := Implies(And(append(typeFacts, pre...)...), And(post...))
+	txt := fmt.Sprintf("(assert (forall (%s) (! %s %s)))", strings.Join(binders, " "), body.S, strings.Join(pats, " "))
+	if len(pats) == 0 {
+		txt = fmt.Sprintf("(assert (forall (%s) %s))", strings.Join(binders, " "), body.S)
+	}
+	e.globalAxiom(txt)
+	e.atags[len(e.assumps)-1] = name
+	e.note("lemma", fmt.Sprintf("closure of lemma procedure %s used as a premise (the procedure is verified by induction in the same run)", key))
 }
